@@ -54,8 +54,11 @@ class Check:
     def unsure(self, oid, rule, site, construct, why):
         self.obs.append(Obligation(oid, rule, site, construct, INCONCLUSIVE, why))
 
-    def expect(self, cond, oid, rule, site, construct, why_ok='', why_bad=''):
-        (self.ok if cond else self.bad)(oid, rule, site, construct, why_ok if cond else (why_bad or why_ok))
+    def expect(self, cond, oid, rule, site, construct, why_ok='', why_bad='', inspected=1):
+        if cond:
+            self.ok(oid, rule, site, construct, why_ok, inspected)
+        else:
+            self.bad(oid, rule, site, construct, why_bad or why_ok)
         return cond
 
     def note(self, text):
